@@ -60,7 +60,7 @@ pub fn run(ctx: &mut Ctx) {
     ctx.meta("rule", "cases: byte streams that begin at a root element and that the strict iterator reads to the end without error, from (a) real writer outputs over the tree x option space, (b) RefEncoder outputs with non-canonical encodings (zero-length and zero/sign-padded integers, 4-byte floats, 2- and 8-byte size fields, unknown-size masters closed by a following element, an ancestor's end or end of input), (c) every Σ string up to length n and every single mutation of the documents; each also with all masters buffered (Full items). Oracle: every emitted item, written back one write() per item, is accepted; into_inner succeeds; a second strict read yields the identical normalised item sequence. Non-trivial: streams whose re-encoding differs from the input bytes.");
     ctx.meta("bounds", &format!("Σ* length <= {}; documents <= {} elements with <= 2 encoding deviations", n, ctx.tier.pick(4, 5)));
     ctx.meta("assumptions", "64 KiB tag-size limit on the reader (mutated size fields)");
-    for c in ["accepted_streams", "re-encoded_bytes_differ(non-canonical input)", "writer_outputs"] {
+    for c in ["accepted_streams", "re-encoded_bytes_differ(non-canonical input)", "writer_outputs", "size_boundary_docs"] {
         ctx.expect_nonzero(c);
     }
     let all_masters: Vec<u64> = rs.masters();
@@ -90,6 +90,26 @@ pub fn run(ctx: &mut Ctx) {
         }
         !ctx.should_stop()
     });
+    // size-boundary documents (payload / content of 124..128 and 16379..16384 bytes), written by the real writer
+    // and encoded by the reference encoder
+    for (i, doc) in docs::size_boundary_docs().into_iter().enumerate() {
+        if !ctx.mine(i as u64) {
+            continue;
+        }
+        let has_raw = { let mut r = false; crate::refmodel::visit(&doc, &mut |n, _| { if matches!(n.kind, Kind::RawLeaf(_)) { r = true; } }, 0); r };
+        if has_raw {
+            continue; // the strict reader does not accept unknown ids
+        }
+        ctx.count("size_boundary_docs", 1);
+        let (bytes, _) = ref_encode(&doc);
+        fixpoint(ctx, &rs, &bytes, "ref-encoded-size-boundary", &[]);
+        let calls = calls_for(&doc, &[], false);
+        let run = run_writer::<V>(&calls, Dest::default());
+        if run.results.iter().all(|r| r.is_ok()) && run.fin.is_ok() {
+            fixpoint(ctx, &rs, &run.out, "writer-output-size-boundary", &[]);
+            fixpoint(ctx, &rs, &run.out, "writer-output-size-boundary", &all_masters);
+        }
+    }
     // (c) Σ*
     let (shard, nshards) = (ctx.shard, ctx.nshards);
     gen::strings(&SIGMA, n, shard, nshards, &mut |s| {
